@@ -180,7 +180,7 @@ def sweep_part(shard, n_vectors, seed):
 def run(tier, t0):
     part = runner.hyp_shards("vf.props.c12", "hyp_part", 8000 if tier == "quick" else 240000)
     from ..fuzz import driver
-    fuzz_note = driver.campaign(part, "rh", runs=160000 if tier == "quick" else 4000000)
+    fuzz_note = driver.campaign(part, "rh", runs=160000 if tier == "quick" else 1500000)
     for p in runner.parallel("vf.props.c12", "sweep_part", [(s, 12 if tier == "quick" else 300, runner.SEED) for s in range(runner.NPROC)]):
         part.merge(p)
     rule = ("(i) objects from accepted vectors: rh_vector() format and round trip; (ii) <score>/<vector> with all 101 scores "
